@@ -7,7 +7,7 @@ sys.path.insert(0, os.path.dirname(os.path.dirname(os.path.abspath(__file__))))
 from vf import evidence  # noqa: E402
 
 PLAN = {
-    "C01": ["serverconn", "router"],
+    "C01": ["serverconn", "router", "tlspump"],
     "C04": ["serverconn", "chain"],
     "C05": ["c05", "chain"],
     "C06": ["tlspump", "live"],
@@ -15,7 +15,7 @@ PLAN = {
     "C15": ["serverconn", "tlspump", "live"],
     "C11": ["clientconn", "c03"],
     "C20": ["tlspump", "live"],
-    "C08": ["url", "serverconn"],
+    "C08": ["url", "serverconn", "tlspump"],
 }
 
 if __name__ == "__main__":
